@@ -160,7 +160,7 @@ def mc_run(chk, name, prog, invariants, properties=(), ext_menu=(), max_ext=1, m
     return res
 
 
-BASE_INV = ["TypeOK", "Inv_C01", "Inv_C04", "Inv_C35", "Inv_C08"]
+BASE_INV = ["TypeOK", "Inv_C01", "Inv_C02", "Inv_C04", "Inv_C35", "Inv_C08"]
 
 
 def mc_plans(chk, pid):
@@ -172,8 +172,9 @@ def mc_plans(chk, pid):
                 ("waiter", sc.resumable_wait(), ["Inv_C12c"], [], {"ext_menu": [("Resp1", None), ("Resp", None)], "max_ext": 2})],
         "C31": [("fanout_timeout", sc.fanout(2, 2, 2, 5, 1, timeout=8) if q else sc.fanout(2, 3, 2, 5, 1, timeout=8), ["Inv_C31", "Inv_C04"], [], {"max_cancel": 1}),
                 ("pipeline", sc.pipeline(retry_max=2, delay=3, fail_until=1, timeout=5), ["Inv_C31", "Inv_C04"], [], {"max_cancel": 1})],
-        "C02": [("overlap", sc.overlap(1, 1, 2), [], [], {"ext_menu": [("A", None), ("D", None)], "max_ext": 1, "replay": True}),
-                ("targeted", sc.targeted(2), [], [], {"ext_menu": [("A", "c"), ("D", None)], "max_ext": 1, "replay": True})],
+        "C02": [("overlap", sc.overlap(1, 1, 2), ["Inv_C02"], [], {"ext_menu": [("A", None), ("D", None)], "max_ext": 1, "replay": True}),
+                ("targeted", sc.targeted(2), ["Inv_C02"], [], {"ext_menu": [("A", "c"), ("D", None)], "max_ext": 1, "replay": True}),
+                ("wait_accept", sc.wait_accept(), ["Inv_C02"], [], {"ext_menu": [("Resp", None)], "max_ext": 2})],
         "C05": [("attempts", sc.pipeline(retry_max=2, delay=2, fail_until=99), ["Inv_C06"], [], {}),
                 ("stop_delay", sc.pipeline(retry_max=None, stop_delay=3, delay=2, fail_until=99), [], [], {})],
         "C06": [("chain_asis", sc.pipeline(retry_max=4, wait=["chain", [5, 1]], fail_until=99), ["Inv_C06"], [],
